@@ -148,6 +148,7 @@ func (g *genState) outcome() *Outcome {
 			}
 		}
 		o.SMaxAge = rapid.IntRange(0, 4).Draw(g.t, "smaxage") == 0
+		o.ETag = rapid.SampledFrom([]string{"", "", "same", "same", "ver"}).Draw(g.t, "etag")
 		o.Status = rapid.SampledFrom([]int{0, 0, 0, 200, 201, 404, 301}).Draw(g.t, "status")
 	case "uncacheable":
 		o.Why = rapid.SampledFrom([]string{"no-cc", "no-store", "no-cache", "private", "set-cookie", "max-age=0"}).Draw(g.t, "why")
@@ -259,7 +260,7 @@ func (g *genState) macro(name string) {
 			if rapid.Bool().Draw(t, "waiter") {
 				g.req(k, g.parkBits())
 			}
-			g.add(Op{K: "complete", Pick: -1, Out: &Outcome{Kind: "cacheable", T: T}})
+			g.add(Op{K: "complete", Pick: -1, Out: &Outcome{Kind: "cacheable", T: T, ETag: rapid.SampledFrom([]string{"", "same", "ver"}).Draw(t, "etag")}})
 			g.lastT = T
 			g.add(Op{K: "advance", Ms: T*1000 + rapid.SampledFrom([]int{-1500, -1, 0, 1, 500, 999, 1000, 1001, 2500}).Draw(t, "off")})
 			g.req(k, 0)
